@@ -103,7 +103,7 @@ def shard_base(arg):
         # extreme whitespace, domain tokens, argument forms (vlib/dims.py)
         from .. import dims
         from ..lib import BIC as _BIC
-        for label, t in dims.whitespace_extremes(base):
+        for label, t in dims.whitespace_extremes(base, huge=(base == "GENODEM1GLS")):
             check_bic(rec, t, strict, f"ws-extreme:{label}")
             rec.case("ws-extreme", (base, label, strict), {"label": label, "len": len(t), "base": base} if label == "trail-300" else None)
             bad = t.replace(base[5], "-", 1)
